@@ -8,10 +8,14 @@ Steps (all in a scratch worktree of /repo HEAD, removed afterwards):
 import argparse, json, os, re, shutil, subprocess, sys, tempfile
 
 ap = argparse.ArgumentParser()
-ap.add_argument("sid"); ap.add_argument("prop"); ap.add_argument("patch"); ap.add_argument("demo")
+ap.add_argument("sid"); ap.add_argument("prop"); ap.add_argument("patch", nargs="?"); ap.add_argument("demo", nargs="?")
 ap.add_argument("--checks"); ap.add_argument("--seeds", default="1"); ap.add_argument("--notes"); ap.add_argument("--needs", default="")
 a = ap.parse_args()
 V = os.path.dirname(os.path.dirname(os.path.abspath(__file__)))
+if a.patch is None:   # re-check a mutant that is already recorded
+    a.patch, a.demo = os.path.join(V, "seeded", a.sid, "patch.diff"), os.path.join(V, "seeded", a.sid, "demo.py")
+    old = json.load(open(os.path.join(V, "seeded", a.sid, "meta.json")))
+    a.needs = a.needs or old.get("needs", "")
 tree = tempfile.mkdtemp(prefix="seedtree_", dir="/dev/shm")
 os.rmdir(tree)
 sh = lambda *c, **k: subprocess.run(c, capture_output=True, text=True, **k)
@@ -50,6 +54,17 @@ try:
             verdicts[f"{c}@seed{seed}"] = {"exit": r.returncode, "lines": [l[:300] for l in lines[:6]]}
             print(c, "seed", seed, "exit", r.returncode, *[l[:200] for l in lines[:3]], sep="\n   ")
             meta["ran"].append(f"VERIF_REPO=<mutated tree> VERIF_SEED={seed} ./check {c}")
+            # the shrunk cases that exposed the change join the regression corpus of that check
+            rd = os.path.join(shadow_root, "rp", c)
+            if r.returncode == 1 and os.path.isdir(rd) and seed == a.seeds.split(",")[0]:
+                os.makedirs(os.path.join(V, "corpus", c), exist_ok=True)
+                for name in sorted(os.listdir(rd))[:3]:
+                    rec = json.load(open(os.path.join(rd, name)))
+                    if len(json.dumps(rec)) > 200_000:
+                        continue
+                    rec["origin"] = f"seeded change {a.sid}"
+                    json.dump(rec, open(os.path.join(V, "corpus", c, f"{a.sid}__{name}"), "w"), indent=1)
+                shutil.rmtree(rd, ignore_errors=True)
     meta["verdicts"] = verdicts
     meta["caught_by"] = sorted({k.split("@")[0] for k, v in verdicts.items() if v["exit"] == 1})
 finally:
@@ -57,7 +72,8 @@ finally:
     shutil.rmtree(shadow_root, ignore_errors=True)
 if meta.get("confirmed"):
     d = os.path.join(V, "seeded", a.sid); os.makedirs(d, exist_ok=True)
-    shutil.copy(a.patch, os.path.join(d, "patch.diff")); shutil.copy(a.demo, os.path.join(d, "demo.py"))
+    if os.path.abspath(a.patch) != os.path.join(d, "patch.diff"):
+        shutil.copy(a.patch, os.path.join(d, "patch.diff")); shutil.copy(a.demo, os.path.join(d, "demo.py"))
     if a.notes and os.path.exists(a.notes):
         shutil.copy(a.notes, os.path.join(d, "notes.md"))
         if not meta["needs"]:
